@@ -109,6 +109,9 @@ def float_path_is_exact(ms):
 def time_string(ms, fraction):
     dt = datetime.datetime(1970, 1, 1) + datetime.timedelta(milliseconds=ms)
     s = '%04d-%02d-%02dT%02d:%02d:%02d' % (dt.year, dt.month, dt.day, dt.hour, dt.minute, dt.second)
+    if _STYLE[0] == 'unpadded':
+        # month, day and hour without leading zeros: spellings strptime (hence the decoder) accepts for %m, %d, %H
+        s = '%04d-%d-%dT%d:%02d:%02d' % (dt.year, dt.month, dt.day, dt.hour, dt.minute, dt.second)
     if fraction:
         # every spelling strptime('%f') accepts: 6 digits, 3 digits, shortest (e.g. '.5', '.25', '.0'); chosen per event
         style = (ms // 1000) % 3
@@ -123,7 +126,7 @@ def time_string(ms, fraction):
     return s
 
 
-_STYLE = ['lf']        # row style of the files of the current case: 'lf' | 'crlf' (what csv.writer and write_ascii produce) | 'quoted'
+_STYLE = ['lf']        # 'unpadded': time fields without leading zeros; row style of the files of the current case: 'lf' | 'crlf' (what csv.writer and write_ascii produce) | 'quoted'
 
 
 def build_file(groups, header, fraction, blank, swap=None):
@@ -275,7 +278,7 @@ def _cases(tier, seed):
         for chunk in _chunks(shapes(n, 2), 12):
             yield dict(kind='enum', n=n, shapes=chunk, variants='all', trace=True)
     # ---- the same files with CRLF row endings (what csv.writer and CSEPCatalog.write_ascii produce) and with quoted text fields
-    for style in ('crlf', 'quoted'):
+    for style in ('crlf', 'quoted', 'unpadded'):
         for n in range(1, 5):
             for chunk in _chunks(shapes(n, 2), 24):
                 yield dict(kind='enum', n=n, shapes=chunk, variants='all', trace=False, style=style)
